@@ -27,6 +27,7 @@ def extra(tier):
     from . import hist_probe, lapack_probe
 
     res = hist_probe.run(tier)
+    res += hist_probe.fanout_order_probe()
     # process-global NumPy state (np.seterr) must survive every differentiation, including the ones that raise inside a rule
     enga.init()
     res += [r for r in lapack_probe.run(runner.SEED) if "np.geterr" in r["key"]]
